@@ -6,7 +6,7 @@ base = json.load(open(os.path.join(ROOT, "tools", "manifest_base.json")))
 checks, claimed = [], set()
 for p in sorted(glob.glob(os.path.join(ROOT, "props.d", "*.json"))):
     c = json.load(open(p))
-    if not c.get("claimed", True):
+    if not c.get("claimed", False):
         continue
     pid = c["property_id"]
     claimed.add(pid)
@@ -21,6 +21,12 @@ for p in sorted(glob.glob(os.path.join(ROOT, "props.d", "*.json"))):
         "level_note": c["level_note"],
         "technique": c.get("technique", "machine-checked proof in Coq 8.16.1 of a hand-written model + checked correspondence (differential run of model and implementation, evaluated inside Coq)"),
     })
+import subprocess
+try:
+    out = subprocess.run(["git", "-C", "/repo", "log", "--format=%H %s", "--grep", "^verif hooks"], capture_output=True, text=True).stdout
+    base["hooks"]["source_commits"] = [l.split()[0] for l in out.splitlines() if l.strip()]
+except Exception:
+    pass
 base["checks"] = checks
 props = [json.loads(l)["id"] for l in open(os.path.join(ROOT, "properties.jsonl"))]
 na = {e["property_id"]: e for e in base.get("not_applicable", [])}
